@@ -443,6 +443,43 @@ func c01Case(rt *rapid.T, rec *vstat.Rec) {
 		}
 		ndSent += r.NonDet
 	}
+	// ---- optionally a boot (POST /boot with a SQLite image) after the program.
+	// Boot bypasses the log and is a single-node operation: with a follower
+	// attached it must be refused; if the endpoint reports success anyway, the
+	// follower still has to end up with the same database as the leader.
+	boot := "none"
+	if rapid.IntRange(0, 3).Draw(rt, "bootAtEnd") == 0 {
+		img := filepath.Join(base, "boot.db")
+		if db, err := vsql.Open(img); err == nil {
+			db.Exec("CREATE TABLE booted (id INTEGER PRIMARY KEY, x)")
+			db.Exec(fmt.Sprintf("INSERT INTO booted(x) VALUES (%d), ('b')", rapid.IntRange(0, 99).Draw(rt, "bootVal")))
+			db.Close()
+		}
+		if data, err := os.ReadFile(img); err == nil && len(data) > 0 {
+			resp, err := cl.Post(node.url+"/boot", "application/octet-stream", bytes.NewReader(data))
+			if err != nil {
+				rec.Label("inconclusive:http-error")
+				return
+			}
+			io.Copy(io.Discard, resp.Body)
+			resp.Body.Close()
+			boot = "refused"
+			if resp.StatusCode == 200 {
+				boot = "ok"
+			}
+			hist = append(hist, fmt.Sprintf("boot(followerAttached=%v,%s)", followerLive, boot))
+			// a write after the boot, through the log
+			after := c01Req{Endpoint: "execute-json", Stmts: []c01Stmt{
+				{SQL: "CREATE TABLE IF NOT EXISTS after_boot (id INTEGER PRIMARY KEY, x)"},
+				{SQL: "INSERT INTO after_boot(x) VALUES (random())"}}, NonDet: 1}
+			if code, _, err := c01Send(cl, node.url, after); err != nil || code != 200 {
+				rec.Label("inconclusive:http-status")
+				return
+			}
+			hist = append(hist, after.String())
+			ndSent++
+		}
+	}
 	if !store.G8aWaitApplied(a, a, time.Now().Add(30*time.Second)) {
 		rec.Label("inconclusive:leader-not-applied")
 		return
@@ -460,6 +497,9 @@ func c01Case(rt *rapid.T, rec *vstat.Rec) {
 	diverged := func(path, d string) bool {
 		if d == live {
 			return false
+		}
+		if boot == "ok" && followerLive {
+			fail("C01/diverged{path=boot-with-attached-node}", "a boot was accepted with another node attached and apply path %q does not hold the same database as the leader: %s", path, store.G8aFirstDiff(d, live))
 		}
 		dT := c01Split(d)
 		attributed := false
@@ -508,6 +548,9 @@ func c01Case(rt *rapid.T, rec *vstat.Rec) {
 			rec.Label("live-follower")
 		}
 		rec.Label("cdc-on-leader:" + cdcLeader)
+		if boot != "none" {
+			rec.Label(fmt.Sprintf("boot-at-end:%s(follower=%v)", boot, followerLive))
+		}
 		if snapshotBefore {
 			rec.Label("snapshot-before-replay")
 		}
